@@ -154,6 +154,7 @@ impl<'a> Run<'a> {
                 let want = TsigRr { name: name_wire(KEYNAME_C), alg: alg_wire(&alg), time: op["now"].as_u64().unwrap(),
                                     fudge, mac: vec![], oid: id, err: 0, other: vec![] };
                 let obs = self.signed_obs(op, &pre, &wire, &want);
+                self.net.clear();       // composed again: replaces the request in flight
                 self.net.push_back(Flight { pre_len: pre.len(), wire, rep: 1, signed: true, pre, movedup: false });
                 obs
             }
@@ -165,47 +166,10 @@ impl<'a> Run<'a> {
                     return json!({"res": "Ok"});
                 }
                 let f = match self.net.front_mut() { Some(f) => f, None => return json!({"harness": "nothing in flight"}) };
-                let off = f.pre_len;
-                let (mut rr, _) = match TsigRr::parse_at(&f.wire, off) { Some(x) => x, None => return json!({"harness": "no TSIG to tamper with"}) };
-                let arg = op["arg"].as_i64().unwrap_or(0);
-                let mut reencode = true;
-                match kind {
-                    "FlipBody" => { f.wire[off - 1] ^= 1; reencode = false; }
-                    "FlipMac" => { rr.mac[(arg - 1) as usize] ^= 1; }
-                    "TruncShort" | "TruncOk" => { rr.mac.truncate(arg as usize); }
-                    "ExtendMac" | "ExtendWithin" => {
-                        // appended octets never continue the genuine MAC
-                        for _ in 0..arg {
-                            let p = rr.mac.len();
-                            let b = if self.last_full.get(p) == Some(&0xa5) { 0x5a } else { 0xa5 };
-                            rr.mac.push(b);
-                        }
-                    }
-                    "RenameKey" => { rr.name = name_wire("other.key."); }
-                    "RecaseKey" => { rr.name = name_wire(KEYNAME_C); }
-                    "SwapAlg" => { rr.alg = alg_wire(op["arg"].as_str().unwrap_or("md5")); }
-                    "ChangeOrigId" => { rr.oid = rr.oid.wrapping_add(arg as u16); }
-                    "RewriteId" => { let id = get_id(&f.wire).wrapping_add(arg as u16); set_id(&mut f.wire, id); reencode = false; }
-                    "ShiftTime" => { rr.time = (rr.time as i64 + arg) as u64; }
-                    "SetErr" => { rr.err = arg as u16; }
-                    "SetOther" | "SetOther6" => { rr.other = if arg == 6 { u48(5).to_vec() } else { vec![1, 2] }; }
-                    "ForgeBadSig" | "ForgeBadKey" | "ForgeBadTime" => { f.wire[3] = (f.wire[3] & 0xf0) | 9; rr.err = arg as u16; }
-                    "StripTsig" => {
-                        f.wire.truncate(off);
-                        let ar = get_ar(&f.wire);
-                        set_ar(&mut f.wire, ar - 1);
-                        f.signed = false;
-                        reencode = false;
-                    }
-                    "MoveTsig" => { f.wire.extend(extra_rec()); let ar = get_ar(&f.wire); set_ar(&mut f.wire, ar + 1); f.movedup = true; reencode = false; }
-                    "DupTsig" => { let e = rr.encode(); f.wire.extend(e); let ar = get_ar(&f.wire); set_ar(&mut f.wire, ar + 1); f.movedup = true; reencode = false; }
-                    _ => return json!({"harness": format!("unknown adversary action {}", kind)}),
+                match apply_adv(&mut f.wire, f.pre_len, op, &self.last_full) {
+                    Ok(still_signed) => { f.signed = f.signed && still_signed; json!({"res": "Ok"}) }
+                    Err(e) => json!({"harness": e}),
                 }
-                if reencode {
-                    f.wire.truncate(off);
-                    f.wire.extend(rr.encode());
-                }
-                json!({"res": "Ok"})
             }
             "s_request" => {
                 let f = match self.net.pop_front() { Some(f) => f, None => return json!({"harness": "nothing in flight"}) };
